@@ -73,8 +73,8 @@ def build(c, ws, conf):
     ops = [{"op": "open", "file": "probe.journal", "text": HEAD}]
     meta = []
     for p in sorted(c["probes"], key=lambda p: (p["ctx"], p["tag"], p["q"])):
-        if lone_surrogate(p["q"]):
-            continue
+        if lone_surrogate(p["q"]) or "?" in p["q"] or "\ufffd" in p["q"]:
+            continue        # a prefix cut inside a surrogate pair (TLC prints the lone half as '?'): nobody types that
         for text, line, ch, layout in probe_text(p, anyacct):
             ops.append({"op": "change", "file": "probe.journal", "text": text})
             ops.append({"op": "req", "file": "probe.journal", "kind": "completion", "line": line, "char": ch})
@@ -94,7 +94,7 @@ def evaluate(c, ws, metas, results):
         p = m["p"]
         q = p["q"]
         where = "%s context (%s), typed %r, workspace root %s" % (p["ctx"], m["layout"], q, ws)
-        own = {q, q.rstrip(":")}
+        own = {q, q.rstrip(":"), q.strip()}
         lists = []
         for conf, res in zip(CONFIGS, results):
             st = res["steps"][m["op_index"]]
